@@ -303,10 +303,8 @@ def run(ck):
         and unk[0].ast.body[0].exc is None
     gen = [h for h in hs if norm(h.ast.type) == 'Exception']
     ok = ok and bool(gen) and unk[0].ast.lineno < gen[0].ast.lineno
-    ck.ob(R6, f"{ev.fid} :: unknown event", ok,
-          "EdzedUnknownEvent is re-raised as is, before the generic handler (no abort)" if ok else
-          "an unknown event type is not simply re-raised (it may abort the simulation)", ev,
-          unk[0].ast if unk else ev.node)
+    from rules.shared import unknown_event_not_fatal
+    unknown_event_not_fatal(ck, R6, 'unknown event')
     gc = ck.cfg(ctx.fid, 'M0')
     unk_r = nodes_where(gc, lambda n: isinstance(n.ast, ast.Raise) and
                         n.kinds == {'N:EdzedUnknownEvent'}, kinds=('stmt',))
